@@ -55,7 +55,7 @@ func genC04(rt *rapid.T) core.Scenario {
 		o := SubOpts{
 			Once:   i == 0 || rapid.IntRange(0, 2).Draw(rt, "once") > 0,
 			Async:  rapid.Bool().Draw(rt, "async"),
-			Seq:    rapid.IntRange(0, 4).Draw(rt, "seq") == 0,
+			Seq:    rapid.IntRange(0, 4).Draw(rt, "seq") == 4,
 			Filter: rapid.SampledFrom([]int{0, 0, 1, 2, 3, 4}).Draw(rt, "filter"),
 		}
 		sc.Regs = append(sc.Regs, C04Reg{Type: ti, Fn: fn, Opts: o})
@@ -70,7 +70,7 @@ func genC04(rt *rapid.T) core.Scenario {
 			l = append(l, C04Pub{
 				Type: types[rapid.IntRange(0, nTypes-1).Draw(rt, "pubType")],
 				ID:   id*6 + rapid.IntRange(0, 5).Draw(rt, "idRes"), // unique, residue free for the filters
-				Dead: rapid.IntRange(0, 2).Draw(rt, "dead") == 0,
+				Dead: rapid.IntRange(0, 2).Draw(rt, "dead") == 2,
 				Bg:   rapid.Bool().Draw(rt, "bg"),
 			})
 		}
